@@ -371,6 +371,14 @@ def rule_r3(ctx) -> List[R.Inst]:
                         stop.same(sym.parse(f"N - {size} + 1")) and unparse(lo) == i:
                     ok_ = True
                     insts.append(R.ok(rid, "consecutive-chunks", file, f.lineno, idiom=f"groups[i:i+{size}] for i in range(n-{size}+1)"))
+                elif lo is not None and hi is not None and (sym.canon(hi) - sym.canon(lo)).same(sym.parse(size)) and unparse(lo) == i and \
+                        stop.symbols() <= {"N", size} and any(x is chunk[0] or unparse(x) == unparse(chunk[0]) for x in ast.walk(fn.node)):
+                    # the same shape with another bound: the chunks are groups[i:i+size] but not for every i in 0..n-size
+                    ok_ = True
+                    insts.append(R.viol(rid, "consecutive-chunks", file, f.lineno,
+                                        f"chunks are groups[{i}:{i}+{size}] for {i} in range({unparse(f.iter.args[-1])}); they must start at every index "
+                                        f"0 .. len(groups) - {size}: the last start is len - {size}, so the range ends at len - {size} + 1",
+                                        construct=f"range({unparse(f.iter.args[-1])})"))
         if not ok_:
             insts.append(R.undec(rid, "consecutive-chunks", file, fn.node.lineno, "chunk enumeration not recognised"))
     # all combinations of a chunk: meshgrid over the groups of the chunk, reshaped to (-1, size)
